@@ -10,6 +10,7 @@ import (
 	"reflect"
 	"strings"
 
+	segproto "github.com/segmentio/encoding/proto"
 	"verif/mc/explore"
 )
 
@@ -31,9 +32,10 @@ const (
 	Message
 	MsgLeaf    // static type implementing proto.Message
 	CustomLeaf // static type implementing the gogo-style custom interface
+	RawLeaf    // proto.RawMessage: a Message whose Marshal copies without looking at the room it is given
 )
 
-var kindNames = [...]string{"bool", "int", "int32", "int64", "uint", "uint32", "uint64", "float32", "float64", "string", "[]byte", "[N]byte", "struct", "MsgLeaf", "CustomLeaf"}
+var kindNames = [...]string{"bool", "int", "int32", "int64", "uint", "uint32", "uint64", "float32", "float64", "string", "[]byte", "[N]byte", "struct", "MsgLeaf", "CustomLeaf", "RawMessage"}
 
 // Wrap says how the element is wrapped in the Go field type.
 type Wrap int
@@ -210,6 +212,8 @@ func kindType(k Kind, n int) reflect.Type {
 		return reflect.TypeOf(LeafMsg{})
 	case CustomLeaf:
 		return reflect.TypeOf(LeafCustom{})
+	case RawLeaf:
+		return reflect.TypeOf(segproto.RawMessage(nil))
 	}
 	panic("kindType")
 }
@@ -396,7 +400,7 @@ func (m *Msg) HasMap() bool {
 // HasLeaf reports whether m contains user-supplied marshalling methods.
 func (m *Msg) HasLeaf() bool {
 	for _, f := range m.Fields {
-		if f.Elem.Kind == MsgLeaf || f.Elem.Kind == CustomLeaf {
+		if f.Elem.Kind == MsgLeaf || f.Elem.Kind == CustomLeaf || f.Elem.Kind == RawLeaf {
 			return true
 		}
 		if f.Elem.Kind == Message && f.Elem.Msg.HasLeaf() {
@@ -476,7 +480,7 @@ func Palette(size int) []Field {
 			p = append(p, fld(inner[0], w), fld(inner[2], w), fld(inner[3], w))
 		}
 		p = append(p, fld(inner[1], Plain), fld(inner[1], Ptr), fld(inner[4], Slice), fld(inner[6], Plain), fld(inner[11], Ptr),
-			fld(sc(MsgLeaf), Plain), fld(sc(CustomLeaf), Ptr), fld(arr(8), Plain), fld(enc(Int32, "zigzag32"), Slice))
+			fld(sc(MsgLeaf), Plain), fld(sc(CustomLeaf), Ptr), fld(arr(8), Plain), fld(enc(Int32, "zigzag32"), Slice), fld(sc(RawLeaf), Plain))
 	default:
 		for _, e := range baseScalars {
 			p = append(p, fld(e, Plain))
@@ -518,6 +522,9 @@ func Palette(size int) []Field {
 		p = append(p, mp(Int32, inner[0]), mp(Int64, inner[4]), mpp(Bool, inner[2]))
 		for _, w := range []Wrap{Plain, Ptr, Slice, SlicePtr, MapVal} {
 			p = append(p, fld(sc(MsgLeaf), w), fld(sc(CustomLeaf), w))
+			if w != SlicePtr {
+				p = append(p, fld(sc(RawLeaf), w))
+			}
 		}
 	}
 	return p
@@ -553,7 +560,7 @@ func EnumMsg(c *explore.Ctx, o Options) *Msg {
 	m := &Msg{}
 	for i := 0; i < nf; i++ {
 		f := pal[c.Choose(len(pal))]
-		if o.NoLeaf && (f.Elem.Kind == MsgLeaf || f.Elem.Kind == CustomLeaf) {
+		if o.NoLeaf && (f.Elem.Kind == MsgLeaf || f.Elem.Kind == CustomLeaf || f.Elem.Kind == RawLeaf) {
 			f = pal[0]
 		}
 		m.Fields = append(m.Fields, f)
@@ -621,6 +628,8 @@ func scalarDomain(e Elem, thorough bool) []any {
 		return []any{LeafMsg{Data: []byte{8, 1}}, LeafMsg{}, LeafMsg{Data: []byte{}}, LeafMsg{Data: make([]byte, 130)}}
 	case CustomLeaf:
 		return []any{LeafCustom{Data: []byte{8, 1}}, LeafCustom{}, LeafCustom{Data: []byte{0}}, LeafCustom{Data: make([]byte, 130)}}
+	case RawLeaf:
+		return []any{segproto.RawMessage{8, 1}, segproto.RawMessage(nil), segproto.RawMessage{0x12, 1, 0x61, 8, 2}, segproto.RawMessage(make([]byte, 130))}
 	}
 	panic("scalarDomain")
 }
